@@ -6,6 +6,7 @@ import (
 	"encoding/json"
 	"fmt"
 	"strings"
+	"time"
 
 	"git.sr.ht/~rockorager/vaxis"
 
@@ -67,6 +68,11 @@ type capCase struct {
 	// SixelVia: "da1" = sixel support is announced by attribute 4 of the
 	// device attributes only, "xtsmgraphics" = by the graphics reply only
 	SixelVia string `json:"sixel_announced_by,omitempty"`
+	// EarlyCPR: the write of a cursor position request returns 5 ms after
+	// the terminal's report has been queued (the report is dispatched while
+	// the requester is still inside its write)
+	EarlyCPR bool `json:"cursor_report_dispatched_before_the_request_write_returns,omitempty"`
+	attempt  int
 }
 
 func names(mask uint32) []string {
@@ -118,6 +124,14 @@ func runCaps(w *harness.W, cc capCase) {
 			t.UnsupportedModeReport = 4
 		}
 		t.SixelVia = cc.SixelVia
+		if cc.EarlyCPR {
+			c.PostWriteDelay = func(p []byte) time.Duration {
+				if strings.Contains(string(p), "\x1b[6n") {
+					return 5 * time.Millisecond
+				}
+				return 0
+			}
+		}
 	})
 	if err != nil {
 		w.Violation("new-failed", err.Error(), cc, err.Error(), "nil")
@@ -149,8 +163,20 @@ func runCaps(w *harness.W, cc capCase) {
 	} {
 		if p.got != p.want {
 			if p.name == "explicitwidth" && !p.got {
-				w.Inconclusive("explicit-width-probe-deadline-passed")
 				sess.Close()
+				if cc.EarlyCPR {
+					// the report was there before the probe started to wait:
+					// only a machine stalled for 50 ms explains a miss
+					if cc.attempt < 2 {
+						cc.attempt++
+						w.End()
+						runCaps(w, cc)
+						return
+					}
+					w.Violation("accessor:explicitwidth:report-dispatched-during-the-request-write", "the terminal supports explicit-width text and answered the probe's cursor position request while the request was still being written; the probe gave up three times in a row", cc, "CanExplicitWidth() = false", "true")
+					return
+				}
+				w.Inconclusive("explicit-width-probe-deadline-passed")
 				return
 			}
 			w.Violation("accessor:"+p.name, fmt.Sprintf("Can* accessor for %s reports %v, the terminal advertised %v", p.name, p.got, p.want), cc, fmt.Sprint(p.got), fmt.Sprint(p.want))
@@ -372,7 +398,7 @@ func (c check) Run(w *harness.W, b harness.Batch) {
 			}
 		}
 		for i, m := range masks {
-			runCaps(w, capCase{Mask: m, Names: names(m), Kitty: i%5 == 4, RPM4: i%3 == 1, SixelVia: []string{"", "da1", "xtsmgraphics", ""}[(i/2)%4]})
+			runCaps(w, capCase{Mask: m, Names: names(m), Kitty: i%5 == 4, RPM4: i%3 == 1, SixelVia: []string{"", "da1", "xtsmgraphics", ""}[(i/2)%4], EarlyCPR: i%4 == 2})
 		}
 	case "colours":
 		runColours(w, s, r, w.Tier)
